@@ -66,6 +66,15 @@ def base():
     for p, c in ((eml, ds), (ds, t), (ds, cr), (cr, ind), (ind, sur), (ds, co), (co, org)):
         p.add_child(c)
     out = [eml, ds, t, cr, ind, sur, co, org]
+    if BASE == 2:
+        # look-alike siblings: a second creator shaped exactly like the first (offenders are planted below the second one)
+        cr2 = Node("creator", id="b8")
+        ind2 = Node("individualName", id="b9")
+        sur2 = Node("surName", id="b10", content="S2")
+        ds.add_child(cr2, 3)
+        cr2.add_child(ind2)
+        ind2.add_child(sur2)
+        out += [cr2, ind2, sur2]
     if BASE == 1:
         am = Node("additionalMetadata", id="b8")
         md = Node("metadata", id="b9")
